@@ -454,6 +454,15 @@ func TestC17(t *testing.T) {
 	t.Run("struct", func(t *testing.T) {
 		rapid.Check(t, func(t *rapid.T) {
 			c := genC17Struct(t)
+			if rapid.IntRange(0, 24).Draw(t, "deepGroups") == 0 {
+				// a chain of 20-70 objects, each with an either group of its own (Name, PLeaf); some of them - the last one
+				// always - have both members empty
+				n := rapid.IntRange(20, 70).Draw(t, "chainLen")
+				empty := map[int]bool{n - 1: true, rapid.IntRange(0, n-1).Draw(t, "emptyAt"): true, rapid.IntRange(0, n-1).Draw(t, "emptyAt2"): true}
+				c = &StructCase{Root: desc.Ptr(desc.Named("Tree")), Val: desc.V{E: []desc.V{deepChain(n, empty)}},
+					PerType: map[string]map[string]string{"Tree": {"Left": rapid.SampledFrom([]string{"required", "exist"}).Draw(t, "chainMark"), "Name": "either=7", "PLeaf": "either=7"}}}
+				ev.Class("struct:groups-along-a-chain-of-20-70-objects")
+			}
 			c.pickEntry(rapid.IntRange(0, 7).Draw(t, "entry"))
 			msg, res, skipped := checkC17Struct(c)
 			if skipped != "" {
